@@ -231,10 +231,12 @@ for cls_no, tag, what, muts, failing in [
     (6, 'empty', 'the empty symbol', RT_MUT,
      'GENUINE DEFECT (C11): print_jdn_one accepts the empty symbol and prints nothing for it: (string/format "%j" (symbol "")) -> "", which reads back as no value at all ((parse "") -> error "no value"); inside '
      'a container the element silently disappears: (string/format "%j" [(symbol "") 1]) -> "( 1)". Failing obligation: "the printed text reads back as exactly one value". Reproducer: header of /verif/harness/pp_jdn_sym.c.' + RT_REPAIR)]:
-    jdn('symbol.rt.' + tag, RT_CLAUSE % what, 'h_jdn_symbol_roundtrip', muts, harness='pp_jdn_sym.c', src=['pp.c', 'parse.c', 'strtod.c'], replace_calls=RT_STUBS, defines=['-DSYMCLASS=%d' % cls_no],
+    jdn('symbol.rt.' + tag, RT_CLAUSE % what, 'h_jdn_symbol_roundtrip', muts, harness='pp_jdn_sym.c', src=['pp.c', 'parse.c', 'strtod.c'], defines=['-DSYMCLASS=%d' % cls_no],
+        replace_calls=RT_STUBS + (['janet_scan_numeric:ps_scan_numeric_stub'] if cls_no in (1, 2, 5) else []),
         functions=['contains_bad_chars', 'janet_description_b', 'janet_to_string_b', 'janet_parser_consume', 'tokenchar', 'janet_scan_numeric'], min_reach_any=1,
         link=['wrap.c', 'util.c'], link_keep={'util.c': ['janet_cstrcmp']},
-        bound=what + '; unwind 12 with unwinding assertions', assumes=RT_ASS, failing=failing, timeout=300)
+        bound=what + '; unwind 12 with unwinding assertions', failing=failing, timeout=300,
+        assumes=RT_ASS + (['classes with symbolic characters: the reader is handed the accumulated token (its accumulation of symbol characters: units parse.consumer.tokenchar / root_open); the number scanner is not reachable for these texts (asserted)'] if cls_no in (1, 2, 5) else []))
 
 if __name__ == '__main__':
     json.dump({'units': U}, open(os.path.join(V, 'units', 'C11_pp.json'), 'w'), indent=1)
